@@ -94,7 +94,7 @@ pub fn e2(id: &str) -> Option<E2Def> {
                 mode: Mode::Torn,
                 profile: p,
                 quick_programs: 64,
-                thorough_programs: 800,
+                thorough_programs: 400,
                 quick_points: 0,
                 rule: "programs = generated prefix (batches, transactions, single writes, clears, rotations/flushes, optionally a reopen so that the journal is in append mode) + a final batch/transaction of 1-12 items over 1-3 keyspaces (values on both sides of the compression threshold and of the 8 KiB journal buffer, tombstones, journal compression on/off); the final batch's journal bytes are located from the interposer log; the journal is then cut at EVERY byte offset of that batch (sampled if > 1500 B in quick / > 20000 B in thorough), once zero padded and once truncated, and the real recovery code runs on each image: recovered state must be exactly S_(m-1) (all earlier batches, nothing of the torn one), then appends to the repaired journal must be recoverable; plus real SIGKILL torn writes at random split points of the final write() calls; non-trivial = cut strictly inside a batch of >= 2 items; distinct by (program hash, offset, padding mode)",
                 assumptions: vec![
